@@ -186,7 +186,9 @@ impl Pipe {
         let r = catch_unwind(AssertUnwindSafe(|| self.rt.block_on(async {
             let fut = async {
                 let res = vh::handle_request(req, &metrics, &resources).await;
-                (res.status().as_u16(), String::new())
+                let status = res.status().as_u16();
+                let body = hyper::body::to_bytes(res.into_body()).await.map(|b| b.to_vec()).unwrap_or_default();
+                (status, String::from_utf8_lossy(&body).into_owned())
             };
             tokio::pin!(fut);
             let t0 = Instant::now();
@@ -204,9 +206,12 @@ impl Pipe {
         // the future is dropped now; let the gate go on and give the delivery time to happen
         let p0 = panics_len();
         self.window.release.store(true, AO::SeqCst);
-        let t0 = Instant::now();
-        while panics_len() == p0 && t0.elapsed() < Duration::from_millis(600) { std::thread::sleep(Duration::from_millis(5)); }
-        r.unwrap_or((599, "panic".into()))
+        let r = r.unwrap_or((599, "panic".into()));
+        if r.0 == TIMEOUT {
+            let t0 = Instant::now();
+            while panics_len() == p0 && t0.elapsed() < Duration::from_millis(600) { std::thread::sleep(Duration::from_millis(5)); }
+        }
+        r
     }
 
     fn connect(&mut self, r: u8) -> bool {
@@ -259,10 +264,10 @@ impl VQuery {
         let ep = f[0].chars().next()?;
         let (what, idx) = match f[1] { "i" => ('i', 0), "u" => ('u', 0), "c" => ('c', 0), n => ('q', n.parse().ok().filter(|i| *i < POOL.len())?) };
         let inc = f[2].chars().next()?;
-        if !"p012vx".contains(ep) || !"nlmb".contains(inc) { return None; }
+        if !"p0123vx".contains(ep) || !"nlmb".contains(inc) { return None; }
         Some(VQuery { ep, what, idx, inc })
     }
-    fn base(&self) -> Option<&'static str> { match self.ep { 'p' => Some("/prefixes/"), '0' => Some("/prefixes/0/"), '1' => Some("/prefixes/1/"), '2' => Some("/prefixes/2/"), 'v' => Some("/vr/"), _ => None } }
+    fn base(&self) -> Option<&'static str> { match self.ep { 'p' => Some("/prefixes/"), '0' => Some("/prefixes/0/"), '1' => Some("/prefixes/1/"), '2' => Some("/prefixes/2/"), '3' => Some("/prefixes/3/"), 'v' => Some("/vr/"), _ => None } }
     fn target(&self, base: &str) -> String {
         let q = match self.inc { 'l' => "?include=lessSpecifics", 'm' => "?include=moreSpecifics", 'b' => "?include=lessSpecifics,moreSpecifics", _ => "" };
         match self.what {
@@ -324,6 +329,15 @@ fn run_v(dir: &std::path::Path, c: &VCase) -> VRun {
         if t0.elapsed() > Duration::from_secs(30) { out.setup = Some("routes-did-not-settle".into()); return out; }
         std::thread::sleep(Duration::from_millis(5));
     }
+    // every virtual endpoint answers a query for a prefix nobody announced (a trigger sent before the physical RIB's
+    // unit has passed its start-up waitpoint is swallowed there: retry with growing waits, as the C13 engine does)
+    let mut eps: Vec<String> = (0..c.k).map(|j| format!("/prefixes/{j}/")).collect();
+    if c.vr { eps.push("/vr/".into()); }
+    for b in &eps {
+        let mut ok = false;
+        for w in [500u64, 1000, 2000, 4000, 8000] { if pipe.get_t(&format!("{b}{}", pool_text(NEVER)), w, false).0 == 200 { ok = true; break; } }
+        if !ok { out.setup = Some(format!("virtual-endpoint-not-answering {b}")); return out; }
+    }
     let _ = panics_take();
     // the physical RIB's own answers
     for q in &c.qs {
@@ -331,14 +345,16 @@ fn run_v(dir: &std::path::Path, c: &VCase) -> VRun {
         out.ups.push(if q.ep == 'x' { "-".into() } else { summary(st, &body) });
         out.up_detail.push((st, body));
     }
-    // the sequence
+    // the sequence. Once a query went unanswered the physical RIB's task is gone for good: later waits are short.
+    let mut dead = false;
     for q in &c.qs {
         let _ = panics_take();
         let (st, body) = match (q.base(), q.what) {
             (None, _) => pipe.get_t("/status", 20_000, false),
-            (Some(b), 'c') => pipe.get_client_gone(&q.target(b)),
-            (Some(b), _) => pipe.get_t(&q.target(b), 20_000, true),
+            (Some(b), 'c') if !dead => pipe.get_client_gone(&q.target(b)),
+            (Some(b), _) => pipe.get_t(&q.target(b), if dead { 600 } else { 20_000 }, true),
         };
+        if st == TIMEOUT { dead = true; }
         let ps = panics_take();
         let mut tok = match st { 200 if q.ep == 'x' => "200".to_string(), 200 => format!("200:{}", summary(st, &body)), TIMEOUT => "T".into(), s => s.to_string() };
         let mut sites: Vec<String> = ps; sites.sort(); sites.dedup();
@@ -352,21 +368,614 @@ fn run_v(dir: &std::path::Path, c: &VCase) -> VRun {
     out
 }
 
+
+// =====================================================================================================
+// Part B: JSON prefix code, comparator / sort cases, populated RIB
+// =====================================================================================================
+
+fn hex(b: &[u8]) -> String { b.iter().map(|x| format!("{x:02x}")).collect() }
+fn unhex(s: &str) -> Option<Vec<u8>> { if s.len() % 2 != 0 { return None; } (0..s.len() / 2).map(|i| u8::from_str_radix(s.get(2 * i..2 * i + 2)?, 16).ok()).collect() }
+
+/// The prefix code of a JSON value; `None` for a float the model cannot represent.
+fn enc(v: &Value, out: &mut String) -> Option<()> {
+    match v {
+        Value::Null => out.push_str("n;"),
+        Value::Bool(true) => out.push_str("t;"),
+        Value::Bool(false) => out.push_str("f;"),
+        Value::Number(n) => {
+            if let Some(u) = n.as_u64() { out.push_str(&format!("i{u};")) }
+            else if let Some(i) = n.as_i64() { out.push_str(&format!("i{i};")) }
+            else { let f = n.as_f64()?; let h = f * 2.0; if h.fract() != 0.0 || h.abs() > 1e12 { return None; } out.push_str(&format!("d{};", h as i64)) }
+        }
+        Value::String(s) => out.push_str(&format!("s{};", hex(s.as_bytes()))),
+        Value::Array(a) => { out.push_str(&format!("a{};", a.len())); for x in a { enc(x, out)?; } }
+        Value::Object(m) => {
+            let mut ks: Vec<&String> = m.keys().collect(); ks.sort();
+            out.push_str(&format!("o{};", ks.len()));
+            for k in ks { out.push_str(&format!("s{};", hex(k.as_bytes()))); enc(&m[k.as_str()], out)?; }
+        }
+    }
+    Some(())
+}
+fn enc1(v: &Value) -> Option<String> { let mut s = String::new(); enc(v, &mut s)?; Some(s) }
+fn enc_list(vs: &[Value]) -> Option<String> { let mut s = String::new(); for v in vs { enc(v, &mut s)?; } Some(s) }
+
+fn dec(toks: &mut std::iter::Peekable<std::str::Split<'_, char>>) -> Option<Value> {
+    let t = toks.next()?;
+    let (k, body) = (t.get(..1)?, t.get(1..)?);
+    Some(match k {
+        "n" => Value::Null, "t" => Value::Bool(true), "f" => Value::Bool(false),
+        "i" => if let Ok(u) = body.parse::<u64>() { Value::from(u) } else { Value::from(body.parse::<i64>().ok()?) },
+        "d" => Value::from(body.parse::<i64>().ok()? as f64 / 2.0),
+        "s" => Value::String(String::from_utf8(unhex(body)?).ok()?),
+        "a" => { let n: usize = body.parse().ok()?; let mut v = vec![]; for _ in 0..n { v.push(dec(toks)?); } Value::Array(v) }
+        "o" => { let n: usize = body.parse().ok()?; let mut m = serde_json::Map::new(); for _ in 0..n { let k = toks.next()?; let k = String::from_utf8(unhex(k.get(1..)?)?).ok()?; m.insert(k, dec(toks)?); } Value::Object(m) }
+        _ => return None,
+    })
+}
+fn dec_list(s: &str) -> Option<Vec<Value>> {
+    let t = s.trim_end_matches(';');
+    if t.is_empty() { return Some(vec![]); }
+    let mut toks = t.split(';').peekable();
+    let mut out = vec![];
+    while toks.peek().is_some() { out.push(dec(&mut toks)?); }
+    Some(out)
+}
+
+struct JGen { rng: Rng }
+impl JGen {
+    fn num(&mut self) -> Value {
+        match self.rng.below(12) {
+            0 => Value::from(-(self.rng.range(1, 3) as i64)),
+            1 => Value::from(*self.rng.pick(&[i64::MAX as u64, i64::MAX as u64 + 1, u64::MAX])),
+            2 | 3 => Value::from(self.rng.range(0, 8) as f64 / 2.0 - 1.0),
+            4 => Value::from(i64::MIN),
+            _ => Value::from(self.rng.range(0, 4)),
+        }
+    }
+    fn string(&mut self) -> Value { Value::String(self.rng.pick(&["", "a", "ab", "b", "B", "é", "a/b", "10.0.0.0/8", "9.0.0.0/8"]).to_string()) }
+    fn key(&mut self) -> String { self.rng.pick(&["a", "b", "", "a/b", "m~n", "0", "01", "~1"]).to_string() }
+    fn value(&mut self, depth: u32) -> Value {
+        match self.rng.below(if depth == 0 { 7 } else { 10 }) {
+            0 => Value::Null,
+            1 => Value::Bool(self.rng.chance(1, 2)),
+            2 | 3 => self.num(),
+            4 | 5 | 6 => self.string(),
+            7 | 8 => { let n = self.rng.below(4); Value::Array((0..n).map(|_| self.value(depth - 1)).collect()) }
+            _ => self.object(depth - 1),
+        }
+    }
+    fn object(&mut self, depth: u32) -> Value {
+        let mut m = serde_json::Map::new();
+        for _ in 0..self.rng.below(4) { let k = self.key(); let v = self.value(depth); m.insert(k, v); }
+        Value::Object(m)
+    }
+    /// a value close to `v`: the same, a sibling of the same type, or anything
+    fn near(&mut self, v: &Value, depth: u32) -> Value {
+        match self.rng.below(6) {
+            0 => v.clone(),
+            1 | 2 | 3 => match v {
+                Value::Number(_) => self.num(),
+                Value::String(_) => self.string(),
+                Value::Bool(b) => Value::Bool(!b),
+                Value::Array(a) => { let mut a = a.clone(); match self.rng.below(3) { 0 => { a.pop(); } 1 => a.push(self.value(depth.saturating_sub(1))), _ => if !a.is_empty() { let i = self.rng.below(a.len() as u64) as usize; a[i] = self.near(&a[i].clone(), depth.saturating_sub(1)); } } Value::Array(a) }
+                Value::Object(_) => self.object(depth.saturating_sub(1).max(0)),
+                Value::Null => Value::Null,
+            },
+            _ => self.value(depth),
+        }
+    }
+    fn pointer(&mut self) -> String {
+        self.rng.pick(&["/a", "/b", "/a/0", "/a/b", "", "/", "a", "/a~1b", "/m~0n", "/0", "/01", "/+1", "/1", "/a/1", "/~01", "/nope", "/b/a"]).to_string()
+    }
+    fn keys(&mut self) -> String { let n = self.rng.range(1, 3); join((0..n).map(|_| self.pointer()), ",") }
+}
+
+fn ord_char(o: std::cmp::Ordering) -> &'static str { match o { std::cmp::Ordering::Less => "L", std::cmp::Ordering::Equal => "E", std::cmp::Ordering::Greater => "G" } }
+
+/// `C|a|b`
+fn run_c(a: &Value, b: &Value) -> String {
+    match catch_unwind(AssertUnwindSafe(|| vq::cmp_json_values(a, b))) { Ok(o) => ord_char(o).to_string(), Err(_) => { let _ = panics_take(); "panic".into() } }
+}
+/// The comparator is judged as an ordering: reflexive, and antisymmetric (`cmp(a,b)` is the reverse of `cmp(b,a)`).
+fn oracle_c(a: &Value, b: &Value, ab: &str) -> String {
+    if ab == "panic" { return "fail ribsort:comparator-panic cmp_json_values panicked".into(); }
+    let ba = run_c(b, a);
+    let rev = match ab { "L" => "G", "G" => "L", _ => "E" };
+    if ba != rev { return format!("ok ## not-antisymmetric cmp(a,b)={ab} cmp(b,a)={ba}"); }
+    "ok".into()
+}
+
+/// `S|keys|values`: the permutation `sort_results` applies (positions in the input, equal values told apart by position:
+/// the sort is stable and the values are matched greedily from the left).
+fn run_s(keys: Option<&str>, vals: &[Value]) -> String {
+    let mut v = vals.to_vec();
+    if catch_unwind(AssertUnwindSafe(|| vq::sort_results(keys, &mut v))).is_err() { let _ = panics_take(); return "panic".into(); }
+    perm_of(vals, &v).map(|p| format!("[{}]", join(p.iter(), " "))).unwrap_or("not-a-permutation".into())
+}
+/// positions in `base` of the elements of `sorted` (each position used once; leftmost unused equal value first)
+fn perm_of(base: &[Value], sorted: &[Value]) -> Option<Vec<usize>> {
+    if base.len() != sorted.len() { return None; }
+    let mut used = vec![false; base.len()];
+    let mut out = vec![];
+    for s in sorted { let i = (0..base.len()).find(|i| !used[*i] && base[*i] == *s)?; used[i] = true; out.push(i); }
+    Some(out)
+}
+
+// ------------------------------------------------------------------ populated RIB (c11 style)
+
+#[derive(Clone, Copy, Debug, PartialEq, Eq, PartialOrd, Ord)]
+struct QPfx { fam: u8, len: u8, bits: u128 }
+impl QPfx {
+    fn width(&self) -> u8 { if self.fam == 4 { 32 } else { 128 } }
+    fn show(&self) -> String { format!("{}/{}/{}", self.fam, self.len, self.bits) }
+    fn addr(&self) -> u128 { if self.len == 0 { 0 } else { self.bits << (self.width() - self.len) } }
+    fn text(&self) -> String { if self.fam == 4 { format!("{}/{}", std::net::Ipv4Addr::from(self.addr() as u32), self.len) } else { format!("{}/{}", std::net::Ipv6Addr::from(self.addr()), self.len) } }
+    fn parse_show(s: &str) -> Option<QPfx> { let p: Vec<&str> = s.split('/').collect(); if p.len() != 3 { return None; } Some(QPfx { fam: p[0].parse().ok()?, len: p[1].parse().ok()?, bits: p[2].parse().ok()? }) }
+    fn parse_text(s: &str) -> Option<QPfx> {
+        let (a, l) = s.split_once('/')?; let len: u8 = l.parse().ok()?;
+        if let Ok(v4) = a.parse::<std::net::Ipv4Addr>() { let addr = u32::from(v4) as u128; Some(QPfx { fam: 4, len, bits: if len == 0 { 0 } else { addr >> (32 - len) } }) }
+        else { let addr = u128::from(a.parse::<std::net::Ipv6Addr>().ok()?); Some(QPfx { fam: 6, len, bits: if len == 0 { 0 } else { addr >> (128 - len) } }) }
+    }
+    fn to_inetnum(&self) -> inetnum::addr::Prefix {
+        let ip: std::net::IpAddr = if self.fam == 4 { std::net::Ipv4Addr::from(self.addr() as u32).into() } else { std::net::Ipv6Addr::from(self.addr()).into() };
+        inetnum::addr::Prefix::new(ip, self.len).unwrap()
+    }
+}
+
+#[derive(Clone, Debug)]
+struct QRec { mc: bool, pfx: QPfx, mui: u32, active: bool, aid: u32, path: Vec<u32>, comms: Vec<(u16, u16)> }
+impl QRec {
+    fn show(&self) -> String { format!("{},{},{},{},{}", if self.mc { "m" } else { "u" }, self.pfx.show(), self.mui, if self.active { "A" } else { "W" }, self.aid) }
+    fn raw_attrs(&self) -> Vec<u8> {
+        let mut v = vec![0x40, 1, 1, 0];
+        v.extend([0x40, 2, if self.path.is_empty() { 0 } else { 2 + 4 * self.path.len() as u8 }]);
+        if !self.path.is_empty() { v.extend([2u8, self.path.len() as u8]); for a in &self.path { v.extend(a.to_be_bytes()); } }
+        v.extend([0x40, 3, 4, 192, 0, 2, 1]);
+        v.extend([0x80, 4, 4]); v.extend(self.aid.to_be_bytes());
+        if !self.comms.is_empty() { v.extend([0xC0, 8, 4 * self.comms.len() as u8]); for (a, b) in &self.comms { v.extend(a.to_be_bytes()); v.extend(b.to_be_bytes()); } }
+        v
+    }
+}
+/// The c11 fixture (real `PrefixesApi` + register) around a `Rib` the engine also holds itself.
+struct Fx { f: RibQueryFixture, rib: Arc<rotonda::verif::rib::Rib> }
+#[derive(Clone, Debug)]
+struct QPop { ingress: Vec<(u32, Option<u32>)>, recs: Vec<QRec>, wd: Vec<u32> }
+impl QPop {
+    fn build(&self) -> Result<Fx, String> {
+        let rib = Arc::new(rotonda::verif::rib::Rib::new_physical());
+        let f = RibQueryFixture::around(rib.clone(), "/prefixes/", 8, 19);
+        for (id, asn) in &self.ingress { f.set_ingress(*id, *asn); }
+        for (t, r) in self.recs.iter().enumerate() {
+            catch_unwind(AssertUnwindSafe(|| f.insert(r.pfx.to_inetnum(), r.mc, r.mui, true, r.raw_attrs(), t as u64))).map_err(|_| "panic-on-insert".to_string())??;
+        }
+        for (t, r) in self.recs.iter().enumerate() { if !r.active { f.insert(r.pfx.to_inetnum(), r.mc, r.mui, false, vec![], (self.recs.len() + t) as u64)?; } }
+        for m in &self.wd { f.withdraw_ingress(*m); }
+        Ok(Fx { f, rib })
+    }
+    fn gen(rng: &mut Rng, narrow: bool) -> QPop {
+        let v6 = !narrow && rng.chance(1, 4);
+        let base: u128 = if v6 { ((0x2001_0db8u128) << 96) | ((rng.next() as u128 & 0xFFFF) << 80) } else { (10u128 << 24) | ((rng.next() as u128 & 0xFF) << 16) };
+        let (fam, w) = if v6 { (6u8, 128u32) } else { (4u8, 32u32) };
+        let lens: Vec<u32> = if v6 { vec![32, 48, 49, 64] } else { vec![8, 16, 17, 24, 25] };
+        let nmui = rng.range(2, 6) as u32;
+        let mut ingress = vec![];
+        for m in 1..=nmui { if rng.chance(5, 6) { ingress.push((m, if rng.chance(4, 5) { Some(*rng.pick(&[65001u32, 65002, 3, 4200000001])) } else { None })); } }
+        let mut recs: Vec<QRec> = vec![];
+        let npfx = rng.range(1, 5);
+        for _ in 0..npfx {
+            let len = *rng.pick(&lens);
+            let mut addr = base; if rng.chance(1, 2) { addr ^= 1u128 << (w - len); }
+            let bits = (addr >> (w - len)) & ((1u128 << len) - 1);
+            let pfx = QPfx { fam, len: len as u8, bits };
+            let mc = rng.chance(1, 8);
+            for m in 1..=nmui {
+                if !rng.chance(3, 4) || recs.iter().any(|r| r.mc == mc && r.pfx == pfx && r.mui == m) { continue; }
+                let path = (0..rng.below(3)).map(|_| *rng.pick(&[1u32, 2, 65001, 4200000001])).collect();
+                let comms = (0..rng.below(3)).map(|_| (*rng.pick(&[1u16, 2, 65001]), *rng.pick(&[1u16, 666]))).collect();
+                recs.push(QRec { mc, pfx, mui: m, active: rng.chance(4, 5), aid: rng.range(1, 9) as u32 * 10 + recs.len() as u32 % 10, path, comms });
+            }
+        }
+        let wd = (1..=nmui).filter(|_| rng.chance(1, 10)).collect();
+        QPop { ingress, recs, wd }
+    }
+    fn show(&self) -> String { format!("{}|{}", join(self.recs.iter().map(|r| r.show()), ";"), join(self.wd.iter(), ",")) }
+    fn parse(recs: &str, wd: &str) -> Option<QPop> {
+        let recs = if recs.is_empty() { vec![] } else { recs.split(';').map(|r| { let f: Vec<&str> = r.split(',').collect(); if f.len() != 5 { return None; }
+            Some(QRec { mc: f[0] == "m", pfx: QPfx::parse_show(f[1])?, mui: f[2].parse().ok()?, active: f[3] == "A", aid: f[4].parse().ok()?, path: vec![], comms: vec![] }) }).collect::<Option<Vec<_>>>()? };
+        let wd = if wd.is_empty() { vec![] } else { wd.split(',').map(|m| m.parse().ok()).collect::<Option<Vec<_>>>()? };
+        Some(QPop { ingress: vec![], recs, wd })
+    }
+}
+
+fn fx_get(rt: &tokio::runtime::Runtime, f: &Fx, path_and_query: &str) -> Result<(u16, String), String> {
+    let uri = format!("http://localhost{path_and_query}");
+    match catch_unwind(AssertUnwindSafe(|| rt.block_on(f.f.get(&uri)))) {
+        Err(_) => { let p = panics_take(); Err(format!("panic {}", join(p.iter(), ","))) }
+        Ok(Err(e)) => Err(format!("error {}", e.split_whitespace().next().unwrap_or("?"))),
+        Ok(Ok(None)) => Ok((0, String::new())),
+        Ok(Ok(Some(x))) => Ok(x),
+    }
+}
+
+type Sections = (Vec<Value>, Option<Vec<Value>>, Option<Vec<Value>>);
+fn json_sections(body: &str) -> Option<Sections> {
+    let v: Value = serde_json::from_str(body).ok()?;
+    let d = v.get("data")?.as_array()?.clone();
+    let inc = v.get("included")?;
+    let l = match inc.get("lessSpecifics") { None => None, Some(x) => Some(x.as_array()?.clone()) };
+    let m = match inc.get("moreSpecifics") { None => None, Some(x) => Some(x.as_array()?.clone()) };
+    Some((d, l, m))
+}
+
+const RENDER: [&str; 5] = ["sort", "details", "format", "sort_by", "sort_order"];
+fn is_render_param(kv: &str) -> bool { let k = kv.split('=').next().unwrap_or(""); let k = k.split(['[', ']']).next().unwrap_or(""); RENDER.contains(&k) }
+
+struct RCase { pfx: QPfx, query: String }
+
+/// `R|…`: returns (case line, impl line, oracle line, nontrivial)
+fn run_r(rt: &tokio::runtime::Runtime, f: &Fx, c: &RCase, rec: &mut Recorder) -> Option<(String, String, String, bool)> {
+    let base_q = join(c.query.split('&').filter(|kv| !kv.is_empty() && !is_render_param(kv)), "&");
+    let path = format!("/prefixes/{}", c.pfx.text());
+    let url = |q: &str| if q.is_empty() { path.clone() } else { format!("{path}?{q}") };
+    let base = fx_get(rt, f, &url(&base_q));
+    let (bd, bl, bm): Sections = match &base { Ok((200, body)) => json_sections(body)?, _ => (vec![], None, None) };
+    // the store hands the records over in an order that is not part of any contract: it must at least be repeatable
+    if let Ok((200, body)) = fx_get(rt, f, &url(&base_q)) { if json_sections(&body).map(|s| s != (bd.clone(), bl.clone(), bm.clone())).unwrap_or(true) { rec.bump("R.unstable-base-order"); return None; } }
+    let sec = |s: &Option<Vec<Value>>| match s { None => Some("-".to_string()), Some(v) => enc_list(v).map(|e| if e.is_empty() { ";".into() } else { e }) };
+    let line = format!("R|{}|8,19|{}|{}|{}|{}", c.pfx.show(), hex(c.query.as_bytes()), enc_list(&bd).map(|e| if e.is_empty() { ";".into() } else { e })?, sec(&bl)?, sec(&bm)?);
+    let got = fx_get(rt, f, &url(&c.query));
+    let show = |p: Option<Vec<usize>>| p.map(|p| format!("[{}]", join(p.iter(), " "))).unwrap_or("?".into());
+    let (imp, oracle, nontrivial) = match &got {
+        Err(e) if e.starts_with("panic") => ("panic".to_string(), format!("fail ribsort:panic GET {} panicked ({e})", url(&c.query)), true),
+        Err(e) => (format!("odd {e}"), format!("fail ribsort:unexpected-response {e}"), true),
+        Ok((200, body)) if body.starts_with("QueryResult") => ("200 dump".into(), "ok".into(), false),
+        Ok((200, body)) => match json_sections(body) {
+            None => ("odd json".into(), "fail ribsort:unexpected-response a 200 answer that is not the documented JSON".into(), true),
+            Some((d, l, m)) => {
+                let pd = perm_of(&bd, &d);
+                let pl = match (&bl, &l) { (Some(b), Some(x)) => Some(perm_of(b, x)), (None, None) => None, _ => Some(None) };
+                let pm = match (&bm, &m) { (Some(b), Some(x)) => Some(perm_of(b, x)), (None, None) => None, _ => Some(None) };
+                let bad = if pd.is_none() { Some("data") } else if pl == Some(None) { Some("lessSpecifics") } else if pm == Some(None) { Some("moreSpecifics") } else { None };
+                let imp = format!("200 D{} L{} M{}", show(pd.clone()), pl.clone().map_or("-".into(), show), pm.clone().map_or("-".into(), show));
+                let moved = [pd, pl.flatten(), pm.flatten()].iter().flatten().any(|p| p.iter().enumerate().any(|(i, x)| i != *x));
+                if moved { rec.bump("R.order-changed"); }
+                let big = bd.len() >= 2 || bl.as_ref().is_some_and(|x| x.len() >= 2) || bm.as_ref().is_some_and(|x| x.len() >= 2);
+                match bad {
+                    Some(s) => (imp, format!("fail ribsort:sort-changes-answer:{s} the entries of {s} are not those of the same query without rendering parameters"), true),
+                    None => (imp, "ok".into(), big),
+                }
+            }
+        },
+        Ok((400, _)) => {
+            // documented: sort takes any value, details a comma list of `communities`, format `dump`; nothing else may be refused
+            let base_ok = matches!(&base, Ok((200, _)));
+            let mut seen: Vec<&str> = vec![];
+            let mut documented = base_ok;
+            for kv in c.query.split('&').filter(|kv| !kv.is_empty() && is_render_param(kv)) {
+                let (k, v) = kv.split_once('=').unwrap_or((kv, ""));
+                if seen.contains(&k) { documented = false; } seen.push(k);
+                match k { "sort" => {}, "details" => if !v.split(',').all(|d| d == "communities") { documented = false }, "format" => if v != "dump" { documented = false }, _ => documented = false }
+            }
+            ("400".into(), if documented { "fail ribsort:valid-query-refused a documented query was answered 400".into() } else { "ok".into() }, false)
+        }
+        Ok((s, _)) => (format!("{s}"), format!("fail ribsort:server-error status {s}"), true),
+    };
+    // unknown rendering parameters must not be accepted silently
+    let oracle = if oracle == "ok" && imp.starts_with("200") && c.query.split('&').any(|kv| kv.starts_with("sort_by=") || kv.starts_with("sort_order=")) { "fail ribsort:unknown-parameter-accepted sort_by / sort_order are not parameters of the API".to_string() } else { oracle };
+    Some((line, imp, oracle, nontrivial))
+}
+
+/// `G|1|<hex text>|<recs>|<wd>|O<raw store iteration>`: the per-ingress listing of the physical RIB
+fn run_g(rt: &tokio::runtime::Runtime, f: &Fx, pop: &QPop, text: &str) -> (String, String, String, bool) {
+    let num = |t: &str| -> Option<u32> { let b = t.strip_prefix('+').unwrap_or(t); if b.is_empty() || !b.bytes().all(|c| c.is_ascii_digit()) { None } else { b.parse().ok() } };
+    // what the dependency iterates for this ingress id (input of the model under `listing=as-observed`)
+    let raw: Vec<QPfx> = num(text).and_then(|id| catch_unwind(AssertUnwindSafe(|| f.rib.verif_store_mui_prefixes(id))).ok().flatten()).unwrap_or_default()
+        .iter().filter_map(|p| QPfx::parse_text(&p.to_string())).collect();
+    let line = format!("G|1|{}|{}|O{}", hex(text.as_bytes()), pop.show(), join(raw.iter().map(|p| p.show()), ","));
+    let got = fx_get(rt, f, &format!("/prefixes/{text}"));
+    match got {
+        Err(e) if e.starts_with("panic") => (line, "panic".into(), format!("fail ribsort:panic GET /prefixes/{text} panicked ({e})"), true),
+        Err(e) => (line, format!("odd {e}"), format!("fail ribsort:unexpected-response {e}"), true),
+        Ok((400, _)) => (line, "400".into(), if num(text).is_some() { "fail ribsort:listing-refused a numeric ingress id was answered 400".into() } else { "ok".into() }, false),
+        Ok((200, body)) => {
+            let mut items: Vec<(QPfx, u32)> = vec![]; let mut cur: Option<QPfx> = None; let mut odd = false;
+            for l in body.lines() {
+                if let Some(j) = l.strip_prefix('\t') {
+                    let aid = serde_json::from_str::<Value>(j).ok().and_then(|v| v.as_array().and_then(|a| a.iter().find_map(|x| x.get("multiExitDisc").and_then(|m| m.as_u64()))));
+                    match (cur, aid) { (Some(p), Some(a)) => items.push((p, a as u32)), _ => odd = true }
+                } else { cur = QPfx::parse_text(l); if cur.is_none() { odd = true; } }
+            }
+            items.sort();
+            let imp = format!("200 [{}]", join(items.iter().map(|(p, a)| format!("{}:{}", p.show(), a)), " "));
+            let Some(id) = num(text) else { return (line, imp, "fail ribsort:listing-junk-accepted a path that is not an ingress id was answered 200".into(), true) };
+            if odd { return (line, imp, "fail ribsort:unexpected-response unparsable listing".into(), true); }
+            let stored: Vec<(QPfx, u32)> = pop.recs.iter().filter(|r| r.mui == id).map(|r| (r.pfx, r.aid)).collect();
+            if let Some(x) = items.iter().find(|i| !stored.contains(i)) { return (line, imp, format!("fail ribsort:listing-unstored-entry {}:{} is not stored for ingress {id}", x.0.show(), x.1), true); }
+            let must: Vec<(QPfx, u32)> = pop.recs.iter().filter(|r| r.mui == id && !r.mc && r.active && !pop.wd.contains(&id)).map(|r| (r.pfx, r.aid)).collect();
+            if let Some(x) = must.iter().find(|i| !items.contains(i)) {
+                // whose omission is it: the dependency's iterator, or rotonda's handling of what it got?
+                let sig = if raw.contains(&x.0) { "ribsort:listing-omits-stored-route" } else { "ribsort:listing:store-iterator-omits-prefix-of-ingress" };
+                return (line, imp, format!("fail {sig} the active unicast route {}:{} of ingress {id} is not listed", x.0.show(), x.1), true);
+            }
+            let nt = !items.is_empty();
+            (line, imp, "ok".into(), nt)
+        }
+        Ok((s, _)) => (line, format!("{s}"), format!("fail ribsort:server-error status {s}"), true),
+    }
+}
+
+fn gen_render_query(rng: &mut Rng, pop: &QPop) -> String {
+    let mut parts: Vec<String> = vec![];
+    match rng.below(5) { 0 => parts.push("include=lessSpecifics".into()), 1 => parts.push("include=moreSpecifics".into()), 2 => parts.push("include=lessSpecifics,moreSpecifics".into()), _ => {} }
+    if rng.chance(1, 5) { parts.push(format!("{}[peer_as]={}", if rng.chance(1, 2) { "select" } else { "discard" }, rng.pick(&[65001u32, 65002, 3]))); }
+    let ptrs = ["/ingress_id", "/prefix", "/status", "/ingress_info/remote_asn", "/ingress_info", "/attributes", "/attributes/0", "/attributes/1/asPath", "/attributes/3/multiExitDisc", "/attributes/4/communities", "/attributes/4/communities/0/parsed/value/tag", "", "/", "/nope", "ingress_id", "/ingress_id/x", "/attributes/01", "%2Fstatus", "/attributes/3", "/attributes/2/nextHop"];
+    let n = match rng.below(10) { 0 => 0, 1..=6 => 1, _ => 2 };
+    for _ in 0..n {
+        match rng.below(12) {
+            0..=6 => { let k = rng.range(1, 3); parts.push(format!("sort={}", join((0..k).map(|_| *rng.pick(&ptrs)), ","))); }
+            7 => parts.push(format!("details={}", rng.pick(&["communities", "communities,communities", "all", "", "Communities"]))),
+            8 => parts.push(format!("format={}", rng.pick(&["dump", "json", "", "DUMP"]))),
+            9 => parts.push(format!("sort_by={}", rng.pick(&ptrs))),
+            10 => parts.push(format!("sort_order={}", rng.pick(&["asc", "desc"]))),
+            _ => parts.push("sort".into()),
+        }
+    }
+    let _ = pop;
+    // parameter order is free
+    for i in (1..parts.len()).rev() { let j = rng.below(i as u64 + 1) as usize; parts.swap(i, j); }
+    parts.join("&")
+}
+
+// =====================================================================================================
+// oracle of part A
+// =====================================================================================================
+
+fn oracle_v(c: &VCase, run: &VRun) -> (String, bool) {
+    if let Some(e) = &run.setup { return (format!("fail vrib:pipeline-setup {e}"), true); }
+    let mut nontrivial = false;
+    let mut first: Option<String> = None;
+    let mut after: Vec<String> = vec![];
+    for (i, q) in c.qs.iter().enumerate() {
+        let tok = &run.obs[i];
+        let (st, _) = &run.detail[i];
+        let virt = q.base().is_some() && q.ep != 'p' && ((q.ep == 'v' && c.vr) || (q.ep.is_ascii_digit() && (q.ep as u8 - b'0') < c.k));
+        let up = &run.ups[i];
+        if virt && up.starts_with('D') && *up != "D0L-M-" && *up != "D0L0M-" && *up != "D0L-M0" && *up != "D0L0M0" { nontrivial = true; }
+        let fail: Option<String> =
+            if let Some(site) = tok.split('!').nth(1) {
+                Some(match site {
+                    "unit.rs:todo" => format!("vrib:nonempty-result-reaches-todo-in-reprocess-rib-value query {} ({}) panicked at {site}; answer {}", q.show(), up, tok.split('!').next().unwrap_or("")),
+                    "unit.rs:unwrap-err" if q.what == 'c' => format!("vrib:client-gone-panics-result-delivery query {} panicked at {site} (tx.send(..).unwrap() after the requester went away)", q.show()),
+                    s => format!("vrib:panic query {} panicked at {s}", q.show()),
+                })
+            } else if *st == TIMEOUT && q.what != 'c' { Some(format!("vrib:unanswered query {} was never answered", q.show())) }
+            else if *st >= 500 && *st != TIMEOUT { Some(format!("vrib:server-error query {} answered {st}", q.show())) }
+            else if q.ep == 'x' && *st != 200 { Some(format!("vrib:status-page-gone /status answered {st}")) }
+            else if (virt || q.ep == 'p') && q.what == 'q' && up.starts_with('D') && *tok != format!("200:{up}") && !(virt && *st == TIMEOUT) {
+                // no roto script is loaded: every virtual RIB accepts everything, so its answer is the physical RIB's
+                if virt { Some(format!("vrib:answer-differs-from-upstream query {} answered {tok}, the physical RIB {up}", q.show())) }
+                else { Some(format!("vrib:physical-rib-stopped-answering query {} answered {tok}, before the sequence {up}", q.show())) }
+            } else if virt && q.what == 'q' && *st == 200 && run.detail[i].1.len() > 2 && sections(&run.detail[i].1) != sections(&run.up_detail[i].1) {
+                Some(format!("vrib:answer-differs-from-upstream query {} lists other entries than the physical RIB", q.show()))
+            } else { None };
+        match (&first, fail) {
+            (None, Some(f)) => first = Some(f),
+            (Some(_), Some(f)) => after.push(f.split_whitespace().next().unwrap_or("").to_string()),
+            _ => {}
+        }
+    }
+    match first {
+        None => ("ok".into(), nontrivial),
+        Some(f) => { after.sort(); after.dedup(); (format!("fail {f}{}", if after.is_empty() { String::new() } else { format!("; afterwards: {}", after.join(", ")) }), true) }
+    }
+}
+
+fn gen_v(rng: &mut Rng) -> VCase {
+    let k = *rng.pick(&[1u8, 1, 2, 3]);
+    let vr = rng.chance(1, 3);
+    let mut ann: Vec<(u8, usize)> = vec![];
+    for r in 0..rng.range(1, 2) as u8 { for i in 0..NEVER { if rng.chance(1, 2) { ann.push((r, i)); } } }
+    let mut eps: Vec<char> = (0..k).map(|j| (b'0' + j) as char).collect();
+    if vr { eps.push('v'); }
+    let n = rng.range(2, 6);
+    let mut qs = vec![];
+    for _ in 0..n {
+        let ep = match rng.below(10) { 0 => 'p', 1 => 'x', 2 => (b'0' + k) as char, _ => *rng.pick(&eps) };
+        let what = match rng.below(12) { 0 => 'i', 1 => 'u', 2 => 'c', _ => 'q' };
+        let what = if ep == 'p' && what == 'i' { 'q' } else { what };
+        // mostly empty answers first, so that the sequence gets somewhere on a tree where a record is fatal
+        let idx = if rng.chance(2, 5) { NEVER } else { rng.below(POOL.len() as u64) as usize };
+        let inc = *rng.pick(&['n', 'n', 'l', 'm', 'b']);
+        qs.push(VQuery { ep, what, idx, inc });
+    }
+    // afterwards: does everybody still answer?
+    qs.push(VQuery { ep: 'p', what: 'q', idx: 0, inc: 'n' });
+    qs.push(VQuery { ep: eps[0], what: 'q', idx: NEVER, inc: 'n' });
+    qs.push(VQuery { ep: 'x', what: 'q', idx: 0, inc: 'n' });
+    VCase { k, vr, ann, qs, ups: vec![] }
+}
+
+fn record_v(dir: &std::path::Path, mut c: VCase, rec: &mut Recorder, kind: &str) -> Vec<String> {
+    let run = run_v(dir, &c);
+    c.ups = if run.ups.len() == c.qs.len() { run.ups.clone() } else { c.qs.iter().map(|_| "?".to_string()).collect() };
+    let (oracle, nt) = oracle_v(&c, &run);
+    rec.bump(&format!("V.{kind}"));
+    for t in &run.obs { rec.bump(&format!("V.obs.{}", t.split(':').next().unwrap_or("").split('!').next().unwrap_or(""))); if t.contains('!') { rec.bump("V.obs.panic"); } }
+    let imp = if run.setup.is_some() { "setup-failed".to_string() } else { run.obs.join(" ") };
+    rec.case(c.line(), imp, oracle, nt);
+    run.obs
+}
+
+
 fn main() {
     let args = parse_args();
     install_panic_hook();
-    let dir = std::env::temp_dir().join(format!("vribquery-{}", std::process::id()));
+    let t0 = Instant::now();
+    let dir = std::env::temp_dir().join(format!("vribquery-{}-{}", std::process::id(), args.seed));
     std::fs::create_dir_all(&dir).unwrap();
-    if args.rest.iter().any(|a| a == "--debug-a") {
-        for line in [
-                     "V|1.0|0.0|0.c.n=?;p.0.n=?;0.5.n=?"] {
-            let c = VCase::parse(line).unwrap();
-            let t0 = Instant::now();
-            let r = run_v(&dir, &c);
-            println!("{line}\n  setup={:?} ups={:?}\n  obs={:?}  ({:.2}s)", r.setup, r.ups, r.obs, t0.elapsed().as_secs_f64());
-        }
+    let mut rec = Recorder::new("V: a virtual-RIB prefix query whose upstream answer holds at least one record; C: always (a comparator pair); S: a slice of >= 2 values; R: a section with >= 2 entries or a refused / failing query; G: a listing with >= 1 route");
+    let rt = tokio::runtime::Builder::new_current_thread().enable_all().build().unwrap();
+    let mut rng = Rng::new(args.seed);
+
+    if args.rest.first().map(|a| a == "--get").unwrap_or(false) {
+        // debugging aid: `--get <k> <vr> <target>…` on a fresh pipeline without routes
+        let pipe = Pipe::new(&dir, args.rest[1].parse().unwrap(), args.rest[2] == "1").unwrap();
+        while pipe.get_t("/prefixes/10.250.0.0/24", 1000, false).0 != 200 { std::thread::sleep(Duration::from_millis(10)); }
+        for t in &args.rest[3..] { println!("{t} -> {:?}", pipe.get_t(t, 5000, false)); }
         return;
     }
-    let _ = (replay_cases as fn(&std::path::Path) -> Vec<String>, Rng::new(args.seed), Recorder::new("x"));
-    let _ = (vq::cmp_json_values as fn(&Value, &Value) -> std::cmp::Ordering, RibQueryFixture::default_limits());
+    if let Some(path) = &args.replay {
+        for line in replay_cases(path) { replay_line(&dir, &rt, &line, &mut rec); }
+        rec.finish(&args, t0.elapsed().as_secs_f64());
+        let _ = std::fs::remove_dir_all(&dir);
+        return;
+    }
+
+    // ---- witnesses first: they decide the variants
+    // W1: a record in the upstream answer
+    let w1 = VCase::parse("V|1.0|0.0|0.5.n=?;0.0.n=?;p.0.n=?;0.5.n=?;x.0.n=?").unwrap();
+    let o1 = record_v(&dir, w1, &mut rec, "witness");
+    let todo = o1.get(1).is_some_and(|t| t.contains("unit.rs:todo"));
+    rec.variant("reprocess", if todo { "as-written" } else { "repaired" });
+    // W2: the client goes away, empty answer
+    let w2 = VCase::parse("V|1.0|0.0|0.c.n=?;p.0.n=?;0.5.n=?;x.0.n=?").unwrap();
+    let o2 = record_v(&dir, w2, &mut rec, "witness");
+    let gone = o2.first().is_some_and(|t| t.contains("unit.rs:unwrap-err"));
+    rec.variant("clientgone", if gone { "as-written" } else { "repaired" });
+    // W3: two routes of one prefix whose ingress ids and MEDs are in opposite order: a sort that sorts cannot keep both orders
+    let wp = QPop { ingress: vec![(1, Some(65001)), (2, Some(65002))], wd: vec![], recs: vec![
+        QRec { mc: false, pfx: QPfx { fam: 4, len: 8, bits: 10 }, mui: 1, active: true, aid: 20, path: vec![1], comms: vec![] },
+        QRec { mc: false, pfx: QPfx { fam: 4, len: 8, bits: 10 }, mui: 2, active: true, aid: 10, path: vec![2], comms: vec![] }] };
+    let mut scope_repaired = false;
+    if let Ok(f) = wp.build() {
+        let mut orders = vec![];
+        for q in ["sort=/ingress_id", "sort=/attributes/3/multiExitDisc"] {
+            if let Some((line, imp, oracle, _)) = run_r(&rt, &f, &RCase { pfx: QPfx { fam: 4, len: 8, bits: 10 }, query: q.into() }, &mut rec) { orders.push(imp.clone()); rec.bump("R.witness"); rec.case(line, imp, oracle, true); }
+        }
+        scope_repaired = orders.len() == 2 && orders[0] != orders[1];
+    }
+    rec.variant("sortscope", if scope_repaired { "repaired" } else { "as-written" });
+
+    // W4: the per-ingress listing of an ingress whose routes the store's iterator does not all reach
+    let lp = QPop::parse("u,4/24/668673,3,W,60;u,4/16/2612,1,W,31;u,4/16/2613,1,W,52;u,4/16/2613,2,A,73;u,4/24/668672,1,W,34;u,4/24/668672,2,A,95;u,4/24/668672,3,W,56;u,4/17/5225,1,A,17;u,4/17/5225,2,A,58", "").unwrap();
+    let mut listing_contract = true;
+    if let Ok(f) = lp.build() { let (l, imp, o, _) = run_g(&rt, &f, &lp, "2"); listing_contract = !o.contains("store-iterator-omits"); rec.bump("G.witness"); rec.case(l, imp, o, true); }
+    rec.variant("listing", if listing_contract { "contract" } else { "as-observed" });
+
+    // ---- part A stream
+    let n_v = if args.thorough { 160 } else { 22 };
+    for _ in 0..n_v { let c = gen_v(&mut rng); record_v(&dir, c, &mut rec, "generated"); }
+
+    // ---- comparator and sort cases
+    let mut jg = JGen { rng: rng.fork() };
+    let n_c = if args.thorough { 60_000 } else { 12_000 };
+    let mut not_anti = 0u64;
+    for _ in 0..n_c {
+        let a = jg.value(2); let b = jg.near(&a, 2);
+        let (Some(ea), Some(eb)) = (enc1(&a), enc1(&b)) else { rec.bump("C.unencodable"); continue };
+        let ab = run_c(&a, &b);
+        let o = oracle_c(&a, &b, &ab);
+        if o.contains("not-antisymmetric") { not_anti += 1; }
+        let kind = |v: &Value| match v { Value::Null => "null", Value::Bool(_) => "bool", Value::Number(_) => "num", Value::String(_) => "str", Value::Array(_) => "arr", Value::Object(_) => "obj" };
+        rec.bump(&format!("C.{}-{}", kind(&a), kind(&b)));
+        rec.case(format!("C|{ea}|{eb}"), ab, if o.starts_with("ok") { "ok".into() } else { o }, true);
+    }
+    rec.extra.insert("comparator_pairs_not_antisymmetric".into(), serde_json::json!(not_anti));
+    let n_s = if args.thorough { 40_000 } else { 8_000 };
+    let mut big_mixed_panics = 0u64; let mut big_mixed = 0u64;
+    for i in 0..n_s {
+        let keys = if jg.rng.chance(1, 12) { None } else { Some(jg.keys()) };
+        let big = i % 10 == 0;
+        let vals: Vec<Value> = if big {
+            // more than 20 values: driftsort; only strict-weak-order inputs are compared (small ints and strings under /a, /b)
+            let n = jg.rng.range(21, 48);
+            (0..n).map(|_| serde_json::json!({"a": jg.rng.range(0, 5), "b": *jg.rng.pick(&["x", "y", "z"])})).collect()
+        } else { let n = jg.rng.range(0, 20); let proto = jg.object(2); (0..n).map(|_| if jg.rng.chance(1, 2) { jg.near(&proto, 2) } else { jg.object(2) }).collect() };
+        let keys = if big { Some(jg.rng.pick(&["/a", "/b", "/a,/b", "/b,/a", "/c,/a", "/b,/c,/a"]).to_string()) } else { keys };
+        let Some(ev) = enc_list(&vals) else { rec.bump("S.unencodable"); continue };
+        let imp = run_s(keys.as_deref(), &vals);
+        let oracle = if imp == "panic" { "fail ribsort:sort-panic sort_results panicked".to_string() } else if imp == "not-a-permutation" { "fail ribsort:sort-changes-answer:slice the sorted slice is not a permutation of its input".to_string() } else { "ok".to_string() };
+        rec.bump(if big { "S.big" } else if keys.is_none() { "S.no-key" } else { "S.small" });
+        rec.case(format!("S|{}|{}", keys.as_deref().map_or("-".to_string(), |k| if k.is_empty() { "".into() } else { hex(k.as_bytes()) }), if ev.is_empty() { ";".into() } else { ev }), imp, oracle, vals.len() >= 2);
+        if i % 40 == 1 {
+            // measurement only: a slice beyond the insertion-sort bound with mixed types at the key
+            let n = jg.rng.range(24, 64);
+            let mut v: Vec<Value> = (0..n).map(|_| serde_json::json!({"a": jg.value(1)})).collect();
+            big_mixed += 1;
+            if catch_unwind(AssertUnwindSafe(|| vq::sort_results(Some("/a"), &mut v))).is_err() { let _ = panics_take(); big_mixed_panics += 1; }
+        }
+    }
+    rec.extra.insert("sort_by_panics_on_mixed_slices_over_20".into(), serde_json::json!(format!("{big_mixed_panics}/{big_mixed}")));
+
+    // ---- populated RIB: rendering parameters and the per-ingress listing
+    let narrow = QPop { ingress: vec![], wd: vec![], recs: vec![QRec { mc: false, pfx: QPfx { fam: 6, len: 32, bits: 0x20010db8 }, mui: 1, active: true, aid: 1, path: vec![], comms: vec![] }] }.build().is_err();
+    if narrow { rec.bump("store.overflow-checked-build"); }
+    let n_pop = if args.thorough { 1500 } else { 300 };
+    for _ in 0..n_pop {
+        let pop = QPop::gen(&mut rng, narrow);
+        let Ok(f) = pop.build() else { rec.bump("R.population-not-built"); continue };
+        let mut pfxs: Vec<QPfx> = pop.recs.iter().map(|r| r.pfx).collect(); pfxs.sort(); pfxs.dedup();
+        if pfxs.is_empty() { continue; }
+        for _ in 0..12 {
+            let pfx = *rng.pick(&pfxs);
+            let query = gen_render_query(&mut rng, &pop);
+            if let Some((line, imp, oracle, nt)) = run_r(&rt, &f, &RCase { pfx, query }, &mut rec) {
+                rec.bump(&format!("R.{}", imp.split_whitespace().next().unwrap_or("")));
+                rec.case(line, imp, oracle, nt);
+            }
+        }
+        for _ in 0..3 {
+            let text = match rng.below(8) { 0 => rng.pick(&["abc", "", "+2", "4294967296", "-1", "07", "1.5", "0x1", "99"]).to_string(), _ => rng.range(1, 7).to_string() };
+            let (line, imp, oracle, nt) = run_g(&rt, &f, &pop, &text);
+            rec.bump(&format!("G.{}", imp.split_whitespace().next().unwrap_or("")));
+            rec.case(line, imp, oracle, nt);
+        }
+    }
+    rec.finish(&args, t0.elapsed().as_secs_f64());
+    let _ = std::fs::remove_dir_all(&dir);
+}
+
+fn replay_line(dir: &std::path::Path, rt: &tokio::runtime::Runtime, line: &str, rec: &mut Recorder) {
+    let f: Vec<&str> = line.split('|').collect();
+    match f.first().copied() {
+        Some("V") => { if let Some(c) = VCase::parse(line) { record_v(dir, c, rec, "replay"); } }
+        Some("C") if f.len() == 3 => {
+            if let (Some(a), Some(b)) = (dec_list(f[1]).and_then(|v| v.into_iter().next()), dec_list(f[2]).and_then(|v| v.into_iter().next())) {
+                let ab = run_c(&a, &b); let o = oracle_c(&a, &b, &ab);
+                rec.case(line.to_string(), ab, if o.starts_with("ok") { "ok".into() } else { o }, true);
+            }
+        }
+        Some("S") if f.len() == 3 => {
+            if let Some(vals) = dec_list(f[2]) {
+                let keys = if f[1] == "-" { None } else { unhex(f[1]).and_then(|b| String::from_utf8(b).ok()) };
+                let imp = run_s(keys.as_deref(), &vals);
+                let oracle = if imp == "panic" { "fail ribsort:sort-panic sort_results panicked".to_string() } else if imp == "not-a-permutation" { "fail ribsort:sort-changes-answer:slice not a permutation".to_string() } else { "ok".to_string() };
+                rec.case(line.to_string(), imp, oracle, vals.len() >= 2);
+            }
+        }
+        // R and G cases carry the answer / the records but not the attributes the population was built from:
+        // they are replayed on a population rebuilt from the entries (R) or the record list (G)
+        Some("G") if f.len() == 6 => {
+            if let (Some(pop), Some(text)) = (QPop::parse(f[3], f[4]), unhex(f[2]).and_then(|b| String::from_utf8(b).ok())) {
+                if let Ok(fx) = pop.build() { let (l, imp, oracle, nt) = run_g(rt, &fx, &pop, &text); rec.case(l, imp, oracle, nt); }
+            }
+        }
+        Some("R") if f.len() == 7 => {
+            // rebuild: one record per entry of the three sections (prefix, ingress id, status, MED, AS path, communities are read back)
+            let mut pop = QPop { ingress: vec![], recs: vec![], wd: vec![] };
+            for sec in [f[4], f[5], f[6]] { if sec == "-" { continue; } for e in dec_list(sec).unwrap_or_default() {
+                let Some(pfx) = e["prefix"].as_str().and_then(QPfx::parse_text) else { continue };
+                let mui = e["ingress_id"].as_u64().unwrap_or(0) as u32;
+                if let Some(a) = e["ingress_info"].as_object() { let asn = a.get("remote_asn").map(|x| x.to_string().chars().filter(|c| c.is_ascii_digit()).collect::<String>()).and_then(|s| s.parse().ok()); if !pop.ingress.iter().any(|(i, _)| *i == mui) { pop.ingress.push((mui, asn)); } }
+                let attrs = e["attributes"].as_array().cloned().unwrap_or_default();
+                let aid = attrs.iter().find_map(|x| x.get("multiExitDisc").and_then(|m| m.as_u64())).unwrap_or(0) as u32;
+                pop.recs.push(QRec { mc: false, pfx, mui, active: e["status"] == "active", aid, path: vec![], comms: vec![] });
+            } }
+            if let (Ok(fx), Some(pfx), Some(q)) = (pop.build(), QPfx::parse_show(f[1]), unhex(f[3]).and_then(|b| String::from_utf8(b).ok())) {
+                if let Some((l, imp, oracle, nt)) = run_r(rt, &fx, &RCase { pfx, query: q }, rec) { rec.case(l, imp, oracle, nt); }
+            }
+        }
+        _ => {}
+    }
 }
